@@ -357,6 +357,27 @@ def c17_pvalues(rec, rng, thorough):
         rec.emit(e)
         rec.cls("pvalue")
 
+        # history: p-values were asked on the forward matrix first, then on its reverse complement (a new
+        # object with other cells and, under a strand-asymmetric background, another distribution)
+        def run_rc():
+            pssm = make_pssm(rows, False, background=barg)
+            pssm.pvalue(att[-1] / 4)                       # forces the forward distribution to be computed
+            rc = pssm.reverse_complement()
+            cells = [[grid(x) for x in rc[i]] for i in range(len(rc))]
+            pv = [[s4, quant(rc.pvalue(s4 / 4) * den, 1), quant(rc.pvalue(s4 / 4, method="tfmpvalue") * den, 1)] for s4 in qs]
+            inv = []
+            for pn, pdn in [(1, 2), (1, 4), (1, 10), (3, 4)]:
+                inv.append([pn, pdn, quant(rc.pvalue(rc.score(pn / pdn)) * den, 1)])
+            return cells, pv, inv
+        r = call(run_rc)
+        e2 = dict(ev="py_pvalue", K=5, G=4, bn=bn, bd=bd, den=den, origin="reverse_complement after forward pvalue")
+        if r[0] == "ok":
+            e2.update(ret="ok", pssm=r[1][0], pv=r[1][1], inv=r[1][2], tsc=[])
+        else:
+            e2.update(ret=r[0], msg=r[1], pssm=rows, pv=[], inv=[], tsc=[])
+        rec.emit(e2)
+        rec.cls("pvalue_of_reverse_complement")
+
 
 def c17_rc(rec, rng, thorough):
     n = 40 if thorough else 12
